@@ -1,4 +1,30 @@
+//! h_api — CLI server harnesses: C22 (tenant/pipeline metadata survive restarts), C28 (tenant
+//! isolation), C44 (event values through the REST API), C31 (accepted paths stay inside the work
+//! directory), C18 (multi-worker `varpulis simulate` equals one worker).
+//! See DESIGN.md §3 and README-harness.md.
+
+mod c18;
+mod c22;
+mod c28;
+mod c31;
+mod c44;
+mod common;
+
 fn main() {
     let args = mc::parse_args();
-    mc::machinery_error(&format!("{} is not built yet", args.prop));
+    if std::env::var_os("VERIF_DEBUG_PANICS").is_none() {
+        mc::quiet_panics();
+    }
+    // a panic of the harness itself (self-test, driver) is a machinery error, never a verdict
+    let r = mc::catch(|| match args.prop.as_str() {
+        "C18" => c18::run(&args),
+        "C22" => c22::run(&args),
+        "C28" => c28::run(&args),
+        "C31" => c31::run(&args),
+        "C44" => c44::run(&args),
+        other => mc::machinery_error(&format!("h_api serves C18, C22, C28, C31 and C44, not {other}")),
+    });
+    if let Err(e) = r {
+        mc::machinery_error(&format!("harness panicked at {}: {e}", mc::last_panic_location()));
+    }
 }
